@@ -36,6 +36,7 @@ func Gen(t *rapid.T) *Case {
 			h.Gate = true
 		}
 		h.Replay = !h.Ctx && rapid.IntRange(0, 2).Draw(t, "replaySub") == 0
+		h.SkipFirst = h.Once && c.End == "wait" && rapid.Bool().Draw(t, "skipFirst")
 		c.Handlers = append(c.Handlers, h)
 	}
 	// keep the total number of invocations bounded
